@@ -260,6 +260,9 @@ pub fn run_worker<P: Prop>(args: &Args) -> WorkerOut {
             }
         }
         let mut obs = Obs::default();
+        if std::env::var_os("VERIF_TRACE_CASES").is_some() {
+            eprintln!("CASE {}", serde_json::to_string(&case).unwrap_or_default());
+        }
         let mut r = guarded(|| P::run(&case, &mut obs));
         let mut s = st.borrow_mut();
         // a case the harness could not decide (watchdog, spawn failure): never a violation
